@@ -482,6 +482,8 @@ def check(run, db, tier):
     run.group(iczt_rule, run, db)
     run.group(origin_rules, run, db)
     run.group(dispatch_rules, run, db)
+    run.forgive('route_value_rules', ['mdft_rules', 'czt_rules', 'iczt_rule'])
+    run.forgive('fft_route_value_rules', ['origin_rules', 'mdft_rules'])
     run.rule('C01.fixed', 'focus/unfocus_fixed_sampling hand the same geometry (per-axis Q, shift in output samples along the documented axis) to both engines (shared with C05.axisQ)')
     from . import fixedsampling as FS
     qp = [dict(zip(['n0', 'n1', 'M0', 'M1'], b)) for b in ((0, 0, 0, 0), (1, 1, 1, 1))]
